@@ -112,13 +112,15 @@ struct LoomOut {
     samples: Vec<Value>,
     bad: Vec<String>,
     aborted: Option<String>,
+    /// explorations that hit the wall-time cap (what they covered until then still counts)
+    capped: String,
 }
 
-fn loom_pass(threads: u32, k: usize, bound: usize) -> Result<LoomOut, String> {
+fn loom_pass(threads: u32, k: usize, bound: usize, cap_s: u64) -> Result<LoomOut, String> {
     let ws = root().join(LOOM_WS);
     let bin = ws.join("target/release/loom_pass");
-    let (code, out, err) = sh(Command::new(&bin).args([threads.to_string(), k.to_string(), bound.to_string()]));
-    let mut lo = LoomOut { serial_execs: 0, serial_outcomes: 0, par_execs: 0, par_outcomes: 0, main_values: 0, has_static_mut: false, rewrites: String::new(), samples: vec![], bad: vec![], aborted: None };
+    let (code, out, err) = sh(Command::new(&bin).args([threads.to_string(), k.to_string(), bound.to_string(), cap_s.to_string()]));
+    let mut lo = LoomOut { serial_execs: 0, serial_outcomes: 0, par_execs: 0, par_outcomes: 0, main_values: 0, has_static_mut: false, rewrites: String::new(), samples: vec![], bad: vec![], aborted: None, capped: String::new() };
     let num = |l: &str, key: &str| -> u64 { l.split_whitespace().find_map(|t| t.strip_prefix(key)).and_then(|v| v.parse().ok()).unwrap_or(0) };
     let mut done = false;
     for l in out.lines() {
@@ -144,6 +146,10 @@ fn loom_pass(threads: u32, k: usize, bound: usize) -> Result<LoomOut, String> {
             }
         } else if l.starts_with("BAD_RESULTS ") || l.starts_with("NOT_SERIALISABLE ") {
             lo.bad.push(l.to_string());
+        } else if let Some(r) = l.strip_prefix("CAPPED ") {
+            if !r.starts_with("[]") {
+                lo.capped = r.to_string();
+            }
         } else if l.starts_with("DONE ") {
             done = true;
         }
@@ -183,7 +189,7 @@ fn confirm(v: &Value) -> Result<(), String> {
         }
         "loom" => {
             build_loom_ws()?;
-            let lo = loom_pass(v["threads"].as_u64().unwrap() as u32, v["k"].as_u64().unwrap() as usize, v["bound"].as_u64().unwrap() as usize)?;
+            let lo = loom_pass(v["threads"].as_u64().unwrap() as u32, v["k"].as_u64().unwrap() as usize, v["bound"].as_u64().unwrap() as usize, v["cap_s"].as_u64().unwrap_or(60))?;
             if let Some(a) = lo.aborted {
                 return Err(format!("loom aborted an execution: {}", normalise(&a)));
             }
@@ -238,6 +244,8 @@ fn main() {
     let mut execs = 0u64;
     let mut outcomes = 0u64;
     let mut loom_summ = vec![];
+    let mut any_capped = false;
+    let mut loom_limit: Option<String> = None;
     match build_loom_ws() {
         Err(m) => {
             if !race_found {
@@ -248,17 +256,29 @@ fn main() {
         Ok(()) => {
             let cfgs: Vec<(u32, usize, usize)> = if quick { vec![(2, 2, 2)] } else { vec![(2, 2, 3), (2, 3, 2), (3, 2, 2)] };
             for (t, k, b) in cfgs {
-                let lo = match loom_pass(t, k, b) {
+                let cap_s: u64 = if quick { 45 } else { 900 };
+                let lo = match loom_pass(t, k, b, cap_s) {
                     Ok(l) => l,
                     Err(m) => run.machinery_failure(&m),
                 };
-                let rep = json!({"pass": "loom", "threads": t, "k": k, "bound": b});
+                let rep = json!({"pass": "loom", "threads": t, "k": k, "bound": b, "cap_s": cap_s});
                 loom_summ.push(json!({"threads": t, "creations_per_thread": k, "preemption_bound": b,
                     "serialised_executions": lo.serial_execs, "serialised_outcomes": lo.serial_outcomes,
                     "unserialised_executions": lo.par_execs, "unserialised_outcomes": lo.par_outcomes,
                     "distinct_first_draws_of_main": lo.main_values, "source_rewrites": lo.rewrites, "static_mut_in_source": lo.has_static_mut,
-                    "aborted": lo.aborted}));
+                    "aborted": lo.aborted, "explorations_stopped_by_the_wall_time_cap": lo.capped, "wall_time_cap_s": cap_s}));
+                if !lo.capped.is_empty() {
+                    any_capped = true;
+                }
                 if let Some(a) = &lo.aborted {
+                    // Limits of loom's own run time are never a verdict: thread-local destructors that touch
+                    // loom objects, statics used while loom shuts an execution down, spin loops without a
+                    // yield.  The Miri pass stands alone then, and the evidence says so.
+                    let limitation = ["lazy_static during shutdown", "src/rt/object.rs", "exceeded maximum number of branches"].iter().any(|m| a.contains(m));
+                    if limitation {
+                        loom_limit = Some(format!("threads={t}, creations={k}, preemption bound {b}: {a}"));
+                        continue;
+                    }
                     run.violation(Violation::new(format!("loom-abort:t={t}:k={k}:b={b}"), format!("loom aborted an execution (threads={t}, creations={k}, preemption bound {b}): {a}"), rep.clone()));
                     continue;
                 }
@@ -279,7 +299,7 @@ fn main() {
                     let fam = if bad.starts_with("BAD_RESULTS") { "results" } else { "not-serialisable" };
                     run.violation(Violation::new(format!("loom:{fam}:t={t}:k={k}:b={b}"), format!("unserialised execution (threads={t}, creations={k}, preemption bound {b}): {bad}"), rep));
                 }
-                if lo.par_execs < 2 || lo.serial_execs < 2 {
+                if lo.bad.is_empty() && (lo.par_execs < 2 || lo.serial_execs < 2) {
                     run.machinery_failure("loom explored fewer than two schedules");
                 }
             }
@@ -291,10 +311,13 @@ fn main() {
     run.cov("traces_validated_against_impl", execs);
     run.cov("evaluations", execs.max(1));
     run.cov("distinct_nontrivial", execs);
-    run.cov("exhaustive", !run.has_violations());
-    run.cov("rule", "loom DPOR with the stated preemption bound over the 2-3 thread harness (each thread: k node creations through from_item/insert_at, merge, split, remove, collect on a treap it owns, then a merge/split of three nodes with hand-set EQUAL priorities whose resulting shape must equal the solo run's; explored twice: main draws one priority before spawning, and 'cold' where the threads' first creations are the first of the process); every execution runs the treap crate's own source with its shared state rerouted to loom; `transitions` = complete schedules executed (serialised reference + unserialised), `states` = distinct unserialised outcomes; each loom execution is a distinct schedule");
+    run.cov("exhaustive", !run.has_violations() && !any_capped && loom_limit.is_none());
+    if let Some(l) = &loom_limit {
+        run.cov("loom_pass_note", format!("loom could not model this tree ({l}); the verdict rests on the Miri pass alone"));
+    }
+    run.cov("rule", "loom DPOR with the stated preemption bound over the 2-3 thread harness (each thread: k node creations through from_item/insert_at, merge, split, remove, collect on a treap it owns, a merge/split of three nodes with hand-set EQUAL priorities whose resulting shape must equal the solo run's, and the {:?} / TreePrinter renderings of both treaps, which must equal the renderings made again after all threads were joined; a panic inside a thread's operations is a result like any other and differs from the solo run; explored twice: a helper thread creates one node and is joined before the threads are spawned, and 'cold' where the threads' first creations are the first of the process); every source file of the treap crate is copied and rerouted, so new modules and statics are covered; every execution runs the treap crate's own source with its shared state rerouted to loom; `transitions` = complete schedules executed (serialised reference + unserialised), `states` = distinct unserialised outcomes; each loom execution is a distinct schedule");
     run.assume("loom models the primitives that build.rs reroutes (thread_local!, std::sync, std::thread, non-mut statics); accesses it does not intercept (static mut, raw UnsafeCell) are covered only by the free-running Miri pass, one execution per configuration");
-    if !race_found && execs == 0 {
+    if !race_found && execs == 0 && loom_limit.is_none() {
         run.machinery_failure("no loom execution was counted");
     }
     if run.samples_empty() {
